@@ -42,6 +42,12 @@ func VerifGraveyardLen(txn ReadTxn, table TableMeta) int {
 	return txn.getTableEntry(table).numDeletedObjects()
 }
 
+// VerifDeleteTrackerCount returns the number of delete trackers (change iterators)
+// registered for the table in the given snapshot.
+func VerifDeleteTrackerCount(txn ReadTxn, table TableMeta) int {
+	return txn.getTableEntry(table).deleteTrackers.Len()
+}
+
 // VerifTableSeq returns the sequence number of the table's lock.
 func VerifTableSeq(table TableMeta) uint64 {
 	return table.sortableMutex().Seq()
